@@ -95,7 +95,9 @@ FLAT = {'base_ms': 5, 'jitter_ms': 0, 'segmentation': 'whole', 'coalesce': True}
 
 LONG_OK = 'L' * 180 + '.mp3'
 LONG_BAD = 'X' * 300 + '.mp3'
-NAMES = ('song.mp3', 'song.mp3', 'song.mp3', 'track 01.flac', 'c++.mp3', 'song [live] (2).mp3', 'what? (x|y).mp3', 'noext',
+# names around the longest file name the file system takes (255 bytes): they fit, their numbered duplicates may not
+LONG_EDGE = tuple('E' * (n - 4) + '.mp3' for n in (250, 251, 252, 253, 254, 255)) + ('\u00f6' * 125 + '.mp3',)
+NAMES = LONG_EDGE + ('song.mp3', 'song.mp3', 'song.mp3', 'track 01.flac', 'c++.mp3', 'song [live] (2).mp3', 'what? (x|y).mp3', 'noext',
          '.hidden', 'a.b.tar.gz', 's\u00f6ng \u2713 \u66f2.mp3', LONG_OK, LONG_BAD, 'song (1).mp3', ' (1)', 'name.', 'name ', '^$.mp3')
 ODD = ('..', '..', '.', '.', '...', ' ', '. ', '.. ', '~', 'CON', '%2e%2e', '@@alias', '@@', 'C:', 'c:', 'Z:evil', '@@..', '')
 DIRS = ('music', 'music', 'Music', 'album (2001)', 'a b', 's\u00f6ng dir', 'D' * 200, 'music.', 'stuff')
@@ -444,6 +446,14 @@ def corpus(tier):
                 out.append(base_plan(chain=chain and list(chain), downloads=[
                     dict(dl(0, song.replace('{peer}', 'bob'), qd=1.0), first_reset=cut),
                     dl(1, song.replace('{peer}', 'carol'), at=off, cd=0.05, size=300000)]))
+    # 1d. names at the file-name length limit, three equally named downloads (at once / one after the other)
+    for chain in [None] + SOUND[:2]:
+        for name in LONG_EDGE:
+            for gap in (0.02, 3.0):
+                out.append(base_plan(chain=chain and list(chain), downloads=[
+                    dl(0, f'@@bob\\music\\{name}', cd=0.05, size=20000),
+                    dl(1, f'@@carol\\music\\{name}', at=gap, cd=0.05, size=20000),
+                    dl(2, f'@@dave\\music\\{name}', at=2 * gap, cd=0.05, size=20000)]))
     # 1c. the download directory setting is changed while the client runs: later choices lie inside the new directory
     for chain in [None] + SOUND[:2]:
         for at in (0.5, 1.5):
